@@ -47,6 +47,9 @@ pub fn compress_fastest<M: Matcher>(
         // Also preserve the format guard that compressed blocks must not
         // exceed the maximum block size.
         if compressed_size >= block_size as usize || compressed_size > MAX_BLOCK_SIZE as usize {
+            // The compressed form is discarded, so the decoder never sees a Huffman table that
+            // this block may have defined. Forget it, or a later block could reference it.
+            state.last_huff_table = None;
             let header = BlockHeader {
                 last_block,
                 block_type: crate::blocks::block::BlockType::Raw,
